@@ -465,6 +465,23 @@ def simulate(rng, tmp, p):
             groups[s] = [r for r in sim.reads if r["sample"] == s]
     else:
         groups["all"] = sim.reads
+    rename = {}
+    if p.get("split_bams"):
+        # every input file is cut into several files (as from several sequencing runs); each file numbers its reads from 0,
+        # so read names recur across the files of one sample
+        newgroups = {}
+        for g, reads in groups.items():
+            part_of = {}
+            counters_ = {}
+            for r in reads:
+                if r["name"] not in part_of:
+                    k = rng.randrange(p["split_bams"])
+                    part_of[r["name"]] = k
+                    rename[r["name"]] = "read%d" % counters_.get(k, 0)
+                    counters_[k] = counters_.get(k, 0) + 1
+                newgroups.setdefault("%s_run%d" % (g, part_of[r["name"]]), []).append(r)
+        groups = newgroups
+    sim.bam_names = rename
     sim.bams = []
     for g, reads in groups.items():
         path = os.path.join(tmp, "reads_%s.bam" % g)
@@ -472,7 +489,7 @@ def simulate(rng, tmp, p):
         with pysam.AlignmentFile(path, "wb", header=header) as out:
             for r in order:
                 a = pysam.AlignedSegment(out.header)
-                a.query_name = r["name"]
+                a.query_name = rename.get(r["name"], r["name"])
                 a.reference_id = sim.chroms.index(r["chrom"])
                 a.reference_start = r["start"]
                 a.mapping_quality = 60
